@@ -1498,7 +1498,7 @@ pub fn substr_with_size() -> impl Function {
         data_type::Text::default(),
         |a, b, c| {
             let start = b as usize;
-            let end = cmp::min((b + c) as usize, a.len());
+            let end = cmp::min(b.saturating_add(c) as usize, a.len());
             a.as_str().get(start..end).unwrap_or("").to_string()
         },
     )
